@@ -1,8 +1,8 @@
-(* C01 — namespace and content operations agree with an abstract tree model.  Statements are printed by Check below and compared with C01.expected.  PARTIAL: proved are the directory layer (lookup / insert / remove / listing on the pointer table refine a search tree over cmp_names, for any tree shape), the specification's own invariants, and the refinement of the NAMESPACE: under the representation relation TreeRep (table represents abstract tree; stream bytes abstracted by a content relation with a frame hypothesis) every query returns the specification's result and every successful namespace mutation yields a table representing the specification's new tree, with agreeing refusal kinds.  NOT proved: that TreeRep is established by create/open and the content frame for stream bytes through chains and migrations (the composed step_refines_spec over whole histories) — that is checked instance by instance: on every step of every generated history the abstraction of the model state equals the specification tree and the specification's result equals the implementation's. *)
+(* C01 — namespace and content operations agree with an abstract tree model.  Statements are printed by Check below and compared with C01.expected.  PARTIAL: proved are the directory layer (lookup / insert / remove / listing on the pointer table refine a search tree over cmp_names, for any tree shape), the specification's own invariants, and the refinement of the NAMESPACE: under the representation relation TreeRep (table represents abstract tree; stream bytes abstracted by a content relation with a frame hypothesis) every query returns the specification's result and every successful namespace mutation yields a table representing the specification's new tree, with agreeing refusal kinds.  Also proved (proofs/HistoryRefine.v): the lift to WHOLE HISTORIES from a freshly created file of either version - for every list of the seven namespace mutations, nine queries, open_stream and stream creation at fresh paths, the model's results and the specification's are related call by call (equal refusal kinds, entries equal up to the root's length field) and the final table represents the final tree, up to the first LATE FAILURE (specification Ok, model Err/Panic/OutOfFuel from allocation - not excluded by these theorems) if there is one.  NOT proved: absence of late failures, truncating create_stream, the *_all operations, and the content frame for stream bytes through chains and migrations — those are checked instance by instance: on every step of every generated history the abstraction of the model state equals the specification tree and the specification's result equals the implementation's. *)
 From Cfb.model Require Import Base Names DirEnt State Alloc Dir Mini Store Handle Open Cfb.
 From Cfb.gen Require Import Consts.
 From Cfb.spec Require Import Tree.
-From Cfb.proofs Require Import NamesProofs DirProofs TreeProofs QueryRefine MutRefine.
+From Cfb.proofs Require Import NamesProofs DirProofs TreeProofs QueryRefine MutRefine ReadonlyTotal HistoryRefine.
 Set Printing Width 110.
 
 (* table lookup with the model's own fuel = search-tree lookup, for ANY tree shape (balance and colour irrelevant) *)
@@ -94,3 +94,33 @@ Theorem C01_remove_stream_refusal_kinds_agree : ltac:(let t := type of remove_st
 Proof. exact remove_stream_refusal. Qed.
 Check C01_remove_stream_refusal_kinds_agree.
 Print Assumptions C01_remove_stream_refusal_kinds_agree.
+
+(* on every covered call model and specification agree (results related, new table represents new tree) unless the specification succeeds and the model fails late *)
+Theorem C01_one_step_agreement : ltac:(let t := type of step_agreement in exact t).
+Proof. exact step_agreement. Qed.
+Check C01_one_step_agreement.
+Print Assumptions C01_one_step_agreement.
+
+(* the file written by create (V3 and V4) represents the empty tree *)
+Theorem C01_fresh_file_represents_empty_tree : ltac:(let t := type of fresh_sim in exact t).
+Proof. exact fresh_sim. Qed.
+Check C01_fresh_file_represents_empty_tree.
+Print Assumptions C01_fresh_file_represents_empty_tree.
+
+(* for EVERY history of covered calls on a fresh file without late failure: all results related, final table represents the final tree *)
+Theorem C01_histories_refine_spec : ltac:(let t := type of fresh_history_refines in exact t).
+Proof. exact fresh_history_refines. Qed.
+Check C01_histories_refine_spec.
+Print Assumptions C01_histories_refine_spec.
+
+(* without that hypothesis: results are related strictly up to the first late failure, which is the only way the two can part *)
+Theorem C01_histories_agree_until_late_failure : ltac:(let t := type of fresh_history_agrees_until_late_failure in exact t).
+Proof. exact fresh_history_agrees_until_late_failure. Qed.
+Check C01_histories_agree_until_late_failure.
+Print Assumptions C01_histories_agree_until_late_failure.
+
+(* non-vacuity: an 18-call history (five of them refused) on V3 and V4 meets the hypotheses *)
+Theorem C01_history_example : ltac:(let t := type of Example.ex_history in exact t).
+Proof. exact Example.ex_history. Qed.
+Check C01_history_example.
+Print Assumptions C01_history_example.
